@@ -159,6 +159,10 @@ Step ==
                             /\ IF Ev.e \in {"EINVAL", "ENOSYS"} THEN dead' = FALSE
                                ELSE PrintT(<<"REJECT", tid, i, "fs", Ev.op, "invalid-name", "expected", "EINVAL", "observed", Ev.e>>) /\ dead' = TRUE
                             /\ UNCHANGED <<t, hs, orph, tid, cov>>
+       [] Ev.k = "panic" -> \* the real code panicked inside this call
+                            /\ PrintT(<<"REJECT", tid, i, Ev.kind, Ev.op, "no-panic", "expected", "-", "observed", "PANIC">>)
+                            /\ dead' = TRUE
+                            /\ UNCHANGED <<t, hs, orph, tid, cov>>
        [] Ev.k = "fs"    -> FsStep /\ UNCHANGED tid
        [] Ev.k = "h"     -> HStep /\ UNCHANGED tid
 Done == /\ i = Len(E) + 1
